@@ -45,6 +45,9 @@ TEXTS = [
     # the same bare line directives (no file name) in inputs with different file names
     ("int p1;\n#line 20\nint p2;\n# 30\nint p3;\n", "g.c"),
     ("#line 20\nchar q1;\n# 30\nchar q2;\n", "h.h"),
+    # linemarkers that change the file INSIDE constructs (an included enumerator / member list): nodes are completed
+    # after look-ahead has crossed the marker, so their file name comes from per-token bookkeeping
+    ('enum color {\n# 1 "colors.inc"\n RED,\n GREEN\n# 4 "i.c"\n};\nstruct s {\n# 1 "members.inc"\n int m;\n# 9 "i.c"\n} v = {\n# 1 "init.inc"\n 1\n# 12 "i.c"\n};\n', "i.c"),
 ]
 GEN_TEXTS = [
     "void f(int a) { if (a) { while (a) { a--; } } else { switch (a) { case 1: { break; } default: ; } } }",
@@ -361,7 +364,7 @@ def main():
     for a_src, b_src in PAIRS_TOK:
         job, _ = tok_job(P, alpha, a_src, b_src, b["tok_switches"])
         jobs.append(job)
-    pairs = [(0, 1), (2, 3), (4, 5), (0, 5), (1, 4), (2, 4), (6, 7), (3, 7)]
+    pairs = [(0, 1), (2, 3), (4, 5), (0, 5), (1, 4), (2, 4), (6, 7), (3, 7), (8, 1), (8, 3)]
     for i, j in pairs:
         jobs.append(real_job([TEXTS[i], TEXTS[j]], b["real_switches"], f"real:{TEXTS[i][1]}+{TEXTS[j][1]}"))
     jobs.append(real_job([TEXTS[0], TEXTS[1], TEXTS[2]], b["real3_switches"], "real3:a+b+c"))
